@@ -30,6 +30,7 @@ use program_structure::ast::{Version, AST};
 use program_structure::report::{Report, ReportCollection};
 use program_structure::file_definition::{FileID, FileLibrary};
 use program_structure::program_archive::ProgramArchive;
+use program_structure::program_merger::Merger;
 use program_structure::template_library::TemplateLibrary;
 use std::collections::HashMap;
 use std::path::{Path, PathBuf};
@@ -92,11 +93,13 @@ pub fn parse_files(
         }
         [] => {
             // TODO: Maybe use a flag to ensure that a main component must be present.
+            reports.append(&mut duplicate_definitions(&definitions));
             let template_library = TemplateLibrary::new(definitions, file_library);
             ParseResult::Library(Box::new(template_library), reports)
         }
         _ => {
             reports.push(errors::MultipleMainError::produce_report());
+            reports.append(&mut duplicate_definitions(&definitions));
             let template_library = TemplateLibrary::new(definitions, file_library);
             ParseResult::Library(Box::new(template_library), reports)
         }
@@ -137,6 +140,23 @@ pub fn parse_files(
         }
     }
     result
+}
+
+/// Reports the definitions that have the same name as an earlier definition. (The library
+/// keeps the first definition of each name.)
+fn duplicate_definitions(
+    definitions: &HashMap<FileID, Vec<program_structure::ast::Definition>>,
+) -> ReportCollection {
+    let mut merger = Merger::new();
+    let mut reports = ReportCollection::new();
+    let mut file_ids = definitions.keys().copied().collect::<Vec<_>>();
+    file_ids.sort_unstable();
+    for file_id in file_ids {
+        if let Err(mut errors) = merger.add_definitions(file_id, &definitions[&file_id]) {
+            reports.append(&mut errors);
+        }
+    }
+    reports
 }
 
 pub fn parse_file(
